@@ -1,4 +1,5 @@
 import HdModel.Props.C14
+import HdModel.Lemmas.PoolWaiters
 /-! # C03 — every request's connection acquisition terminates; nobody is stranded
 
 Step-level theorems about the pool model, valid in **every** state. Together they cover the three
@@ -101,5 +102,39 @@ theorem C03_resolves_when_attempt_done (s : State) (r : ReqId) (c : Checkout)
       cases ho : (s.dial r).outcome with
       | none => exact absurd ho hd
       | some o => cases o <;> simp [ho]
+
+/-! ## Reachable-state theorems (from the invariant of `Lemmas/PoolWaiters.lean`) -/
+
+/-- **C03 (nobody is stranded).** In every state reachable by any operation sequence: a live checkout
+    that only waits for another request's connection attempt and whose channel is still empty is
+    queued for its origin, and the origin's attempt-in-progress marker is set. Whenever the marker
+    has gone away – the attempt succeeded, failed, or was cancelled or abandoned at any point – no
+    such waiter is left with an empty channel: each has been handed a connection or a closed channel. -/
+theorem C03_waiter_only_while_attempt_in_flight (cfg : Config) (ops : List Op) (r : ReqId) (c : Checkout)
+    (hco : (run (init cfg) ops).1.co r = some c) (ha : c.alive = true) (hi : c.inner = .waiting)
+    (hch : (run (init cfg) ops).1.chan r = .empty) :
+    (run (init cfg) ops).1.connecting.contains c.token = true ∧ r ∈ (run (init cfg) ops).1.waiting c.token :=
+  run_waiters ops (init cfg) (waiters_init cfg) r c.token ⟨c, hco, ha, hi, rfl, hch⟩
+
+/-- … and what its next poll does with a non-empty channel (any state): a delivered connection is
+    taken, a closed channel is an error; so a pure waiter is `Pending` with a live channel only while
+    an attempt is in flight. -/
+theorem C03_waiter_poll (s : State) (r : ReqId) (c : Checkout) (hi : c.inner = .waiting) (hw : c.waiter = .connecting) :
+    (∀ p, s.chan r = .full p → (pollCheckout s r c).2.2 = .got p) ∧
+    (s.chan r = .txGone → (pollCheckout s r c).2.2 = .err 0) ∧
+    (s.chan r = .empty → (pollCheckout s r c).2.2 = .pending) := by
+  refine ⟨fun p hp => ?_, fun ht => ?_, fun he => ?_⟩
+  · simp [pollCheckout, pollWaiter, hw, hp]
+  · simp [pollCheckout, pollWaiter, hw, ht, hi]
+  · simp [pollCheckout, pollWaiter, hw, he]
+
+/-- Non-vacuity: an HTTP/2 attempt with two waiters fails; both waiters get an error at their next
+    poll instead of hanging, and a later request starts a fresh attempt. -/
+example :
+    let ops : List Op := [.issue 0 7 true, .poll 0, .issue 1 7 true, .poll 1, .issue 2 7 true, .poll 2,
+                          .dialDone 0 .failConnect, .poll 0, .poll 1, .poll 2, .issue 3 7 true, .poll 3]
+    let res := (run (init {}) ops).2
+    res = [.done, .pending, .done, .pending, .done, .pending, .done, .err 1, .err 0, .err 0, .done, .pending] := by
+  decide
 
 end Hd.Pool
